@@ -1,6 +1,7 @@
 //@unit sm3
 //@serves C01
 //@source gm-sm3/src/lib.rs
+//@export sm3_spec lemma_sm3_len
 //@section spec
 #[verifier::external]
 impl core::fmt::Debug for Sm3Error { fn fmt(&self, f: &mut core::fmt::Formatter<'_>) -> core::fmt::Result { Ok(()) } }
@@ -89,6 +90,8 @@ pub open spec fn sm3_spec(m: Seq<u8>) -> Seq<u8> {
 }
 
 
+//@section spec
+pub proof fn lemma_sm3_len(m: Seq<u8>) ensures sm3_spec(m).len() == 32 { }
 //@section code
 enum Sm3Error { ErrorMsgLen, }
 const T00: u32 = 0x79cc4519;
